@@ -66,6 +66,9 @@ def sortNats (l : List Nat) : List Nat := (l.toArray.qsort (· < ·)).toList
 
 def sortReplies (l : List (Nat × List Entity)) : List (Nat × List Entity) := (l.toArray.qsort (fun a b => a.1 < b.1)).toList
 
+def raceReq (n : Name) (id : Int) (oldv d typ m now : Nat) : SaveReq :=
+  { name := n, id := id, oldVersion := oldv, data := d, dataLen := 4, create := false, deleteTime := 0, typ := typ, mdata := m, now := now }
+
 def parseSave? (t : List String) : Option SaveReq :=
   match t with
   | [name, id, oldv, data, dlen, create, del, typ, mdt, now] =>
@@ -156,6 +159,30 @@ def step (st : St) (toks : List String) : St × List String :=
     ({ st with waiting := r.1 },
      (sortReplies r.2).map (fun p => s!"reply {p.1} cur={lastVersion 0 p.2} {showList (p.2.map showJournalEvent)}")
        ++ [s!"waiting {showList (sortNats (r.1.map (·.since)))}"])
+  | ["dumpe"] => (st, (dump st.s).filter (fun l => !l.startsWith "H "))
+  | ["race", id, oldv, typ, now, reqs] =>
+    -- concurrent edits with DIFFERENT payloads from one version: the model runs them in the listed order (any order gives the same
+    -- reply multiset, id and new version: Props/C15 one_winner); only order-independent facts are rendered
+    match id.toInt?, oldv.toNat?, typ.toNat?, now.toNat? with
+    | some id, some oldv, some typ, some now =>
+      let parsed := (parseList reqs).mapM (fun r => match r.splitOn "/" with
+        | [n, d, m] => match parseName? n, d.toNat?, m.toNat? with
+          | some n, some d, some m => some (raceReq n id oldv d typ m now)
+          | _, _, _ => none
+        | _ => none)
+      match parsed with
+      | none => (st, ["bad-op"])
+      | some rs =>
+        let fin := rs.foldl (fun (acc : State × List SaveOut) a => let r := save acc.1 a; (r.1, acc.2 ++ [r.2])) (st.s, [])
+        let oks := fin.2.filterMap (fun o => match o with | .ok ev _ => some ev | .err _ => none)
+        let errs := fin.2.filterMap (fun o => match o with | .ok _ _ => none | .err e => some (showErr e))
+        let errs := (errs.toArray.qsort (· < ·)).toList
+        let who := match oks with
+          | [ev] => s!" id={ev.id} ver={ev.version}"
+          | _ => ""
+        ({ st with s := fin.1 }, [s!"race ok={oks.length}{who} errs={showList errs}"])
+    | _, _, _, _ => (st, ["bad-op"])
+  | ["reopen"] => ({ st with s := reopen st.s }, ["reopened"])
   | ["dump"] => (st, dump st.s)
   | ["calc", old, expense, last, now, mx, bonus, stp] =>
     match old.toInt?, expense.toInt?, last.toNat?, now.toNat?, mx.toInt?, bonus.toInt?, stp.toNat? with
